@@ -81,8 +81,13 @@ class RawSqlite:
         return grp, index
 
     def where_clause(self, text, alias=None):
+        # one visitor instance per alias for the whole run: visitors are documented as reusable, and state that
+        # leaks from one translation into the next must show
         from odata_query.sql import AstToSqliteSqlVisitor
-        return AstToSqliteSqlVisitor(alias).visit(project.parse(text))
+        vis = self.__dict__.setdefault("_visitors", {})
+        if alias not in vis:
+            vis[alias] = AstToSqliteSqlVisitor(alias)
+        return vis[alias].visit(project.parse(text))
 
     def select(self, text, cols):
         grp, _ = self.ensure(cols)
